@@ -357,7 +357,7 @@ MUTANTS += [
                         lp_vars_string += '1 \'''', '''                    if (pair.lp_var.varValue > 0.9):
                         pair.lp_var.varValue = 0
                         lp_vars_string += '1 \''''),
-    m('second_solve_keeps_status', ['C18'], SOLVER, '            self.model.pulp_status = pulp_status',
+    m('second_solve_keeps_status', ['C14'], SOLVER, '            self.model.pulp_status = pulp_status',
       "            self.model.pulp_status = pulp_status if not self.model.pulp_status else self.model.pulp_status"),
     # ---- C09
     m('reader_lecturer_from_index', ['C09', 'C10'], FIO, 'project_lecturers.append(int(line_split[3]))',
